@@ -41,7 +41,7 @@ def action_penalty(action, act_kind: str):
     a = jnp.asarray(action, dtype=float)
     if act_kind == "discrete":
         return a * 0.5
-    if act_kind == "box":
+    if act_kind in ("box", "boxhalf"):
         return 0.25 * (a - 0.5) ** 2
     if act_kind == "boxvec":
         return 0.25 * (a[0] - 0.5) ** 2 + 0.0625 * (a[1] + 0.5) ** 2
@@ -53,7 +53,7 @@ def action_penalty_np(action, act_kind: str) -> float:
     a = np.asarray(action, dtype=np.float64)
     if act_kind == "discrete":
         return float(a * 0.5)
-    if act_kind == "box":
+    if act_kind in ("box", "boxhalf"):
         return float(0.25 * (a - 0.5) ** 2)
     if act_kind == "boxvec":
         return float(0.25 * (a[0] - 0.5) ** 2 + 0.0625 * (a[1] + 0.5) ** 2)
@@ -93,7 +93,7 @@ class ScriptedAC(AbstractActorCriticPolicy):
         base = env.unwrapped
         self.act_kind, self.obs_kind = base.act_kind, base.obs_kind
         S = base.S
-        dtype = float if self.act_kind in ("box", "boxvec") else int
+        dtype = float if self.act_kind in ("box", "boxvec", "boxhalf") else int
         self.script = jnp.asarray(script, dtype=dtype)
         self.V = jnp.asarray(default_V(S) if V is None else V, dtype=float)
         self.LP0 = jnp.asarray(default_LP0(S) if LP0 is None else LP0, dtype=float)
